@@ -148,6 +148,26 @@ def collect(prop, ctx):
     for sc in spec.get('scan', []):
         from . import scan
         obs.extend(scan.run(sc, ctx.repo()))
+    # ---- bounded obligations on the real library (labelled bounded, never counted as discharged)
+    for b in spec.get('bounded', []):
+        t0 = time.time()
+        try:
+            inp = witness.search_kind(b['kind'], 0)
+            err = None
+        except Exception as ex:  # pragma: no cover
+            inp, err = None, str(ex)
+        rec = {'name': 'bounded:%s' % b['kind'], 'engine': 'bounded', 'backend': 'exhaustive enumeration on the real library (witness crate)',
+               'time_s': round(time.time() - t0, 2), 'bounded': b['bound']}
+        if err or not witness.build():
+            rec['status'] = 'undecided'
+            rec['why'] = 'witness binary could not be built / run: %s' % (err or '')
+        elif inp:
+            rec['status'] = 'failed'
+            rec['failed'] = [{'what': 'bounded check on the real library: ' + inp.get('desc', '')[:300]}]
+            rec['standin_input'] = inp
+        else:
+            rec['status'] = 'proved'
+        obs.append(rec)
     # ---- kani
     by_unit = {}
     for k in spec.get('kani', []):
